@@ -16,7 +16,8 @@ def run(tier):
     table = semgen.optable("thorough", rng)
     th = semgen.text_history_cases("quick", rng)
     if tier == "quick":
-        cases += rng.sample(table, 250) + rng.sample(th, 20)
+        must = [c for c in table if any(w in c.key for w in ("guard", "short", "lazy"))]      # evaluation that must NOT happen: the classic target of an optimiser
+        cases += must + rng.sample([c for c in table if c not in must], 250) + rng.sample(th, 20)
     else:
         cases += table + th
     sigs = semrun.plan_cases(ck, cases, funcs=semgen.FUNCS, nearly=semgen.GLOBALS, label="C11 plan")
